@@ -27,6 +27,7 @@ LEAN = os.path.join(VERIF, "lean")
 REPO = os.environ.get("SKA_REPO", "/repo")
 DRIVER = os.path.join(LEAN, ".lake", "build", "bin", "skadriver")
 GENDRIVER = os.path.join(LEAN, ".lake", "build", "bin", "skagendriver")
+SELGENDRIVER = os.path.join(LEAN, ".lake", "build", "bin", "skaselgendriver")
 ALLOWED_AXIOMS = {"propext", "Classical.choice", "Quot.sound"}
 FORBIDDEN = re.compile(
     r"\bsorry\b|\badmit\b|^axiom\s|native_decide|bv_decide|implemented_by|\bunsafe\s|maxHeartbeats\s+0\b",
